@@ -1,6 +1,6 @@
 """C05 — flattened keyword arguments are equivalent to an explicit request object."""
 from hypothesis import strategies as st
-from harness import common, strategies as S
+from harness import common, strategies as S, model as M
 from props import common_gen as G
 
 ID = "C05"
@@ -27,7 +27,9 @@ def _case(draw):
                      p_map=0.35, p_repeated=0.25, p_resource=0.1, max_files=2, p_keyword_rpc=0.03)
     api = draw(S.apis(prof))
     opts = {"params": ["autogen-snippets=False"], "snippets": False, "transport": "grpc"}
-    if draw(st.integers(0, 3)) == 0:
+    root_ = M.common_package(api)
+    sub_svc = any(f["package"] != root_ for f, _s, _m in M.all_methods(api))
+    if draw(st.integers(0, 3)) == 0 and not sub_svc:      # (ads + a service in a proto sub-package: finding F-subpackage-services)
         # the alternative (ads) template set has its own client template
         opts["params"] += ["python-gapic-templates=ads-templates", "old-naming"]
         opts["old_naming"] = True
